@@ -647,9 +647,10 @@ type vm11CaseResult struct {
 }
 
 type vm11Target struct {
-	name  string
-	d     *vm11DB
-	state string
+	name     string
+	d        *vm11DB
+	state    string
+	baseline []byte // full export of the target hash slot in its baseline state
 }
 
 func vm11FreshTarget(stale bool) (*vm11Target, error) {
@@ -670,6 +671,12 @@ func vm11FreshTarget(stale bool) (*vm11Target, error) {
 		d.close()
 		return nil, err
 	}
+	snap, err := d.db.ExportHashSlotSnapshot(context.Background(), []uint16{vm11Slot})
+	if err != nil {
+		d.close()
+		return nil, err
+	}
+	t.baseline = snap.Data
 	return t, nil
 }
 
@@ -720,12 +727,30 @@ func vm11RunCases(imp vm11Importer, cases []vm11Case, from int, reseal bool, bef
 			}
 			emit(res)
 			if reset {
-				nt, err := vm11FreshTarget(t.name == "populated")
-				if err != nil {
-					return err
+				// cheap restore of the baseline (one batch); a fresh database when that does not work
+				ok := false
+				if res.Outcome == "accepted" {
+					ctx := context.Background()
+					var rerr error
+					if t.name == "populated" {
+						rerr = t.d.db.ImportHashSlotSnapshot(ctx, meta.SlotSnapshot{HashSlots: []uint16{vm11Slot}, Data: t.baseline})
+					} else {
+						rerr = t.d.db.DeleteHashSlotData(ctx, vm11Slot)
+					}
+					if rerr == nil {
+						if st, err := vm11State(t.d); err == nil && st == t.state {
+							ok = true
+						}
+					}
 				}
-				t.d.close()
-				targets[ti] = nt
+				if !ok {
+					nt, err := vm11FreshTarget(t.name == "populated")
+					if err != nil {
+						return err
+					}
+					t.d.close()
+					targets[ti] = nt
+				}
 			}
 		}
 	}
@@ -875,6 +900,9 @@ func vm11Corruption(r *ev.R, history []string, reseal bool) {
 	accepted, rejected, total, crashes := 0, 0, 0, 0
 	for _, imp := range vm11Importers {
 		imp := imp
+		if reseal && !r.Thorough() && imp.name == "restore" {
+			continue // quick tier: the token-clearing variant of the same import path is enumerated
+		}
 		stream := x.full
 		if imp.business {
 			stream = x.backup
